@@ -353,6 +353,8 @@ func c18(c *Ctx) {
 	// ---- C18.6 stale sessions ---------------------------------------------------------------------------------------
 	c18Sessions(c)
 	c18TxDatabase(c)
+	c18EffectiveUpdates(c)
+	c18TokenExpiry(c)
 	// ---- C18.4 SQL statements: readOnly() agrees with effects ------------------------------------------------------
 	c18SQLReadOnly(c)
 }
@@ -705,6 +707,123 @@ func c18TxDatabase(c *Ctx) {
 	} else {
 		c.undecided(r, "Session.NewTransaction", "does not resolve")
 	}
+}
+
+// c18EffectiveUpdates: code that changes a user's permissions / privileges / state works on auth.User values; an
+// assignment to a field of a *local copy* (typically the value variable of a `range` loop) that is never read again
+// has no effect: the user record that is saved keeps the old permission while the RPC reports success.
+func c18EffectiveUpdates(c *Ctx) {
+	r := "C18.8/permission-update-effective"
+	n := 0
+	for _, f := range c.allFns {
+		if !fnInPkgs(f, []string{"pkg/auth"}) && !(fnInPkgs(f, []string{"pkg/server"}) && strings.Contains(strings.ToLower(fnName(f)), "user")) && !(fnInPkgs(f, []string{"pkg/server"}) && strings.Contains(fnName(f), "Permission")) {
+			continue
+		}
+		per := 0
+		allInstrs(f, false, func(in ssa.Instruction) {
+			st, ok := in.(*ssa.Store)
+			if !ok {
+				return
+			}
+			fa, ok := st.Addr.(*ssa.FieldAddr)
+			if !ok {
+				return
+			}
+			a, ok := fa.X.(*ssa.Alloc)
+			if !ok || a.Heap {
+				return
+			}
+			sn := structName(a.Type())
+			if sn != "Permission" && sn != "User" && sn != "SQLPrivilege" {
+				return
+			}
+			n++
+			per++
+			// is the object read (as a whole or this field) after the store, or does it escape?
+			used := false
+			for _, ref := range *a.Referrers() {
+				switch x := ref.(type) {
+				case *ssa.UnOp: // whole-struct load
+					if reachesInstr(st, x) {
+						used = true
+					}
+				case *ssa.FieldAddr:
+					for _, r2 := range *x.Referrers() {
+						if ld, ok := r2.(*ssa.UnOp); ok && x.Field == fa.Field && reachesInstr(st, ld) {
+							used = true
+						}
+						if _, isStore := r2.(*ssa.Store); !isStore {
+							if _, isLoad := r2.(*ssa.UnOp); !isLoad {
+								used = true // address passed on
+							}
+						}
+					}
+				case *ssa.Store:
+				default:
+					used = true // address escapes (call argument, closure, ...)
+				}
+			}
+			c.check(used, r, fmt.Sprintf("%s:%s.%s#%d", fnName(f), sn, fieldName(a.Type(), fa.Field), per), c.pos(st.Pos()), "the updated object is read or stored afterwards",
+				"assignment to "+sn+"."+fieldName(a.Type(), fa.Field)+" of a local copy that is never used again: the update is lost (range-by-value?)")
+		})
+	}
+	c.count("local_user_record_updates", n)
+}
+
+// c18TokenExpiry: "expired ... sessions are refused": token authentication validates the expiry claim. The paseto
+// library applies its default time validation (ValidAt(now)) only when Validate is given no validators; any explicit
+// validator list replaces it, so it must contain ValidAt itself.
+func c18TokenExpiry(c *Ctx) {
+	r := "C18.9/token-expiry-validated"
+	f := c.mustFn(r, "pkg/auth.verifyToken")
+	if f == nil {
+		return
+	}
+	val := callTo("github.com/o1egl/paseto.(*JSONToken).Validate")
+	c.ruleMustPass(r, f, nil, "JSONToken.Validate", val, nil, false)
+	c.ruleErrChecked(r, f, "JSONToken.Validate", val, 1)
+	for i, in := range sites(f, val) {
+		args := callOf(in).Args
+		va := args[len(args)-1]
+		okv := false
+		if k, isConst := va.(*ssa.Const); isConst && k.IsNil() {
+			okv = true // default validators: ValidAt(time.Now())
+		}
+		if dependsOn(va, func(v ssa.Value) bool {
+			cl, ok := v.(*ssa.Call)
+			return ok && calleeName(&cl.Call) == "github.com/o1egl/paseto.ValidAt"
+		}) {
+			okv = true
+		}
+		c.check(okv, r, fmt.Sprintf("%s:validators-include-expiry#%d", fnName(f), i), c.pos(in.Pos()), "Validate() with the default time validation, or an explicit ValidAt",
+			"Validate is called with an explicit validator list that does not contain ValidAt: the library then skips its default expiry check and expired tokens keep authenticating")
+	}
+}
+
+// reachesInstr: b can execute after a (same block later, or in a block reachable from a's block)
+func reachesInstr(a, b ssa.Instruction) bool {
+	if a.Block() == b.Block() {
+		ia, ib := idxIn(a), idxIn(b)
+		if ib > ia {
+			return true
+		}
+	}
+	seen := map[*ssa.BasicBlock]bool{}
+	var q []*ssa.BasicBlock
+	q = append(q, a.Block().Succs...)
+	for len(q) > 0 {
+		x := q[0]
+		q = q[1:]
+		if seen[x] {
+			continue
+		}
+		seen[x] = true
+		if x == b.Block() {
+			return true
+		}
+		q = append(q, x.Succs...)
+	}
+	return false
 }
 
 // c18SQLReadOnly: a statement whose execAt can reach a tx write or catalog mutation reports readOnly()==false.
